@@ -50,10 +50,13 @@ def entity_bytes_flow(ctx, rule):
                               where=F.loc(rec["ev"]["span"]))
     ctx.floor(rule, n, 2, confirmed=2, what="Entity::get_range call sites (single body, multipart part)")
     # no field of type D in the stream structs / enum (nothing can be buffered or replayed)
+    from . import multipart as _MP
+    from . import bodyrules as _BR
+    stream_types = {adt, _MP.find_stream(ctx)[0], _BR.find_bodystream(ctx)[0]["path"]}
     for a in ctx.facts.adts.values():
         if not a["local"]:
             continue
-        if a["path"] in (adt,) or "MultipartStream" in a["path"] or a["path"].endswith("BodyStream"):
+        if a["path"] in stream_types:
             for v in a["variants"]:
                 for f in v["fields"]:
                     ty = f["ty"]
